@@ -236,6 +236,11 @@ class Fxp():
         # store the value
         self.set_val(val, raw=raw)
 
+        if dtype is not None and complex_flag and self.vdtype != complex:
+            # a complex format was asked by the dtype string: a real value stored in it reads as complex (like a raw or a fixed-point value does)
+            self.vdtype = complex
+            self._update_dtype()
+
     # ---
     # Properties/Attributes
     # ---
